@@ -24,6 +24,8 @@ type Scenario struct {
 	// net/http.Transport over an in-memory pipe, instead of being handed over as ready-made
 	// *http.Response values (so the cache sees exactly what a real transport produces).
 	Wire bool `json:"wire,omitempty"`
+	// After: sequential steps executed once the concurrent phase has finished.
+	After []Step `json:"after,omitempty"`
 	// Controlled: the concurrent phase runs under a controller that parks every store and
 	// origin operation and lets exactly one proceed at a time; Sched picks, at the i-th decision,
 	// the (Sched[i] mod #pending)-th pending operation in canonical order (0 once exhausted).
